@@ -34,9 +34,10 @@ def impl_run(sc):
         default_rule = _parser.parse_rule(d['check'])
     conf = _conf(sc.get('enforce_scope', True), sc.get('default_opt'), sc.get('content_type'))
     e = policy.Enforcer(conf, use_conf=False, default_rule=default_rule)
-    e.set_rules(policy.Rules.from_dict(sc['rules'], e.default_rule), use_conf=False)
+    impl.install_rules(e, sc['rules'])
     for name, st in sc.get('registered', []):
-        e.register_default(policy.RuleDefault(name, '!', scope_types=st))
+        text = sc['rules'].get(name)      # the registered default repeats the rule's text when it is text (inert: use_conf=False)
+        e.register_default(policy.RuleDefault(name, text if isinstance(text, str) and text else '!', scope_types=st))
     outs = []
     for q in sc['queries']:
         rule = q['rule']
@@ -127,9 +128,10 @@ def _build(sc, rules=None):
         default_rule = _parser.parse_rule(d['check'])
     conf = _conf(sc.get('enforce_scope', True), sc.get('default_opt'), sc.get('content_type'))
     e = policy.Enforcer(conf, use_conf=False, default_rule=default_rule)
-    e.set_rules(policy.Rules.from_dict(sc['rules'] if rules is None else rules, e.default_rule), use_conf=False)
+    impl.install_rules(e, sc['rules'] if rules is None else rules)
     for name, st in sc.get('registered', []):
-        e.register_default(policy.RuleDefault(name, '!', scope_types=st))
+        text = sc['rules'].get(name)      # the registered default repeats the rule's text when it is text (inert: use_conf=False)
+        e.register_default(policy.RuleDefault(name, text if isinstance(text, str) and text else '!', scope_types=st))
     return e
 
 
@@ -151,7 +153,8 @@ def stateful_probes(rep, scenarios, suite, every=7):
     """Decisions must not depend on what the same enforcer / check objects / credential objects were asked before.
     (a) every query asked twice in a row and then all again in reverse order on ONE enforcer, re-using the very same
         credentials and target objects; (b) an enforcer that served scenario P and then had scenario S's rules merged in
-        with set_rules(overwrite=False) must decide S's queries like a fresh enforcer holding the merged rules."""
+        with set_rules(overwrite=False) must decide S's queries like a fresh enforcer holding the merged rules; (c) an
+        enforcer that served P and was then given S's rules in place of P's must decide S's queries like a fresh one."""
     last = {}
     for i, sc in enumerate(scenarios):
         if i % every:
@@ -181,7 +184,7 @@ def stateful_probes(rep, scenarios, suite, every=7):
             carried = _build(prev)
             for q in prev['queries']:
                 _ask(carried, q, copy.deepcopy(q['creds']), copy.deepcopy(q['target']))
-            carried.set_rules(policy.Rules.from_dict(sc['rules'], carried.default_rule), overwrite=False, use_conf=False)
+            impl.install_rules(carried, sc['rules'], overwrite=False)
             merged = dict(prev['rules'])
             merged.update(sc['rules'])
             fresh = _build(sc, rules=merged)
@@ -197,6 +200,19 @@ def stateful_probes(rep, scenarios, suite, every=7):
                          % (prev['rules'], sc['rules'], a[k], qs[k]['rule'], b[k]),
                          {'first_rules': prev['rules'], 'merged_in': sc['rules'], 'query': qs[k]})
             rep.stat('stateful_carry_over')
+            # (c) the same enforcer re-used: it served P, then its rule set was REPLACED by S's (overwrite=True)
+            reused = _build(prev)
+            for q in prev['queries']:
+                _ask(reused, q, copy.deepcopy(q['creds']), copy.deepcopy(q['target']))
+            impl.install_rules(reused, sc['rules'])
+            c = [_ask(reused, q, copy.deepcopy(q['creds']), copy.deepcopy(q['target'])) for q in sc['queries']]
+            if c != first:
+                k = [j for j in range(len(c)) if c[j] != first[j]][0]
+                rep.fail('%s-reuse:%r' % (suite, sc['queries'][k]['rule']),
+                         'an enforcer that first served rules %r and was then given %r (set_rules, overwrite) decides %s for %r; '
+                         'a fresh enforcer decides %s' % (prev['rules'], sc['rules'], c[k], sc['queries'][k]['rule'], first[k]),
+                         {'first_rules': prev['rules'], 'then_rules': sc['rules'], 'query': sc['queries'][k]})
+            rep.stat('stateful_reuse')
         last[pkey] = sc
 
 
